@@ -1,5 +1,6 @@
 import FxVerif.Model.C08U
 import FxVerif.Model.C08Cache
+import FxVerif.Model.C08Journal
 import FxVerif.Gen.C08c
 import FxVerif.Model.Util
 /-! line-protocol driver for the C08 model (unified, denomination / contract level).
@@ -10,7 +11,8 @@ chain `c` (any denomination may be made an alias of any registered denomination)
 parties (`partyAddr`): users 0-2, 3 erc20 module, 4 eth crosschain module, 5 fee collector, 6 gov, 7 a precompile
 address, 8 the zero address, 1000 + ct the account of contract ct (balances of contract accounts other than WFX are not
 printed and not kept by `compact`: they are never senders).
-Every answer is `<ok | err:kind> | <ledger> | <indexes>`; `mix …` lines are answered by the StateDB cache model. -/
+Every answer is `<ok | err:kind> | <ledger> | <indexes>`; `mix …` lines are answered by the StateDB cache model, `mixx …`
+lines (sub-call frames, transferFrom by the caller, executeClaim) by the journal model on top of it. -/
 open FxVerif FxVerif.Util FxVerif.Model.Ledger FxVerif.Model.Flows FxVerif.Model.C08
 
 structure St where
@@ -109,6 +111,7 @@ def step (st : St) (line : String) : St × String :=
   match words line with
   | "reset" :: _ => (st0, "ok")
   | "mix" :: rest => (st, FxVerif.Model.C08Cache.answerMix rest)
+  | "mixx" :: rest => (st, FxVerif.Model.C08Cache.answerMixX rest)
   | ["fundc", d, u, n] =>
     match nats [d, u, n] with
     | some [d, u, n] => answer { st with u := { st.u with L := compact st.ext (mintTo st.u.L (coinAsset d) (.user u) n) } } "ok"
